@@ -400,38 +400,27 @@ def verify(case, comps, numbers, heads, rows, printed, summary, toler, chem, ctx
             if not math.isfinite(v):
                 fail("finite", "model %d reports a non-finite value: %r" % (mi, r))
         tag = "model %d (fractions %r, transfers %r)" % (mi + 1, alpha, dict(zip(phases, x)))
-        # ---- known findings F1 / F2 (see module doc): results of a failed LP are excluded, and counted
+        # ---- known finding F2: the ranges printed after "Error in subroutine range" are not verified (per model, counted)
         strict = bool(case.get("no_exclusions"))
         pmx = printed[mi] if printed is not None else None
-        lp_notice = bool(summary.get("cl1_notice") or summary.get("minwarn") or summary.get("range_error"))
-        range_failed = bool(summary.get("range_error"))
-        if lp_notice and not strict:
-            ctx.event("excluded:model_after_lp_failure_notice")
-            info["excluded"] += 1
-            continue
+        range_failed = pmx["range_error"] if pmx is not None else bool(summary.get("range_error"))
         info["verified"] += 1
-        # ---- (c) admissible signs
+        # ---- (c) admissible signs.  Slack: what the solver's own verification accepts (10 * tolerance, cl1.cpp check_toler)
+        sgn_slack = float(os.environ.get("C18_SIGN_SLACK") or 0.0) or (tol10 * 1.05 + 1e-13)
         for j in range(nq - 1):
-            if alpha[j] < -(tol10 * 1.05 + 1e-13):
+            if alpha[j] < -sgn_slack:
                 fail("fraction_sign", "%s: mixing fraction of solution %d is negative: %r" % (tag, numbers[j], alpha[j]))
+            elif alpha[j] < -1e-12:
+                ctx.event("sign_within_solver_tolerance")
         if abs(alpha[-1] - 1.0) > 1e-9:
             fail("fraction_final", "%s: fraction of the final solution is %r, not 1" % (tag, alpha[-1]))
-        # known finding F4 (the solver's final verification of the sign restrictions is dead code): a wrong-signed transfer below
-        # 0.1 % of the largest transfer of the model (for the water phase: of the water of the final solution) is counted, not
-        # alarmed (strict in the registered replay)
-        big = max([abs(x[j]) for j in range(nph) if phases[j] != "H2O(g)"] + [0.0])
-        big_all = max([abs(v) for v in x] + [0.0])
         for j, (p, con, force) in enumerate(inv["phases"]):
-            wrong = (con == "dis" and x[j] < -(tol10 * 1.05 + 1e-13)) or (con == "pre" and x[j] > (tol10 * 1.05 + 1e-13))
-            if not wrong:
-                continue
-            if not strict and abs(x[j]) <= 1e-3 * (max(big_all, comps[-1]["water"] / 0.018) if p == "H2O(g)" else big):
-                ctx.event("known_F4:small_wrong_signed_transfer")
-                continue
-            if con == "dis":
-                fail("dissolve_only", "%s: dissolve-only phase %s has transfer %r" % (tag, p, x[j]))
-            else:
-                fail("precipitate_only", "%s: precipitate-only phase %s has transfer %r" % (tag, p, x[j]))
+            bad = -x[j] if con == "dis" else (x[j] if con == "pre" else 0.0)
+            if bad > sgn_slack:
+                fail("dissolve_only" if con == "dis" else "precipitate_only", "%s: %s-only phase %s has transfer %r" % (
+                    tag, "dissolve" if con == "dis" else "precipitate", p, x[j]))
+            elif bad > 1e-12:
+                ctx.event("sign_within_solver_tolerance")
         # ---- (d) value inside its range
         if rng and range_failed and not strict:
             ctx.event("excluded:range_of_model_after_range_lp_failure")
@@ -736,15 +725,19 @@ def reformulate(case, variant):
     return c
 
 
+CONFIRM = set((os.environ.get("C18_CONFIRM") or "element_balance printed_balance delta_limit max_frac_err water_balance minimal").split())
+
+
 def check_case(case, ctx):
     strict = bool(case.get("no_exclusions")) or bool(os.environ.get("C18_NO_CONFIRM"))
     try:
         return check_once(case, ctx, True)
     except Violation as v:
-        if strict:
+        if strict or v.oracle not in CONFIRM:
             raise
-        # a violation counts only if it is reproducible: the pinned tree's LP solver sporadically returns wrong answers without any
-        # notice (known findings F1, F3, F4, F5); those do not survive a reformulation of the same problem, a wrong set-up does
+        # clauses that known finding F5 can break (cl1 returns a point that violates its own rows as "optimal", typically on the
+        # razor edge of feasibility): such a violation counts only if it is reproducible - it does not survive a reformulation of
+        # the same problem or a 1.3 % change of the uncertainty limits, a wrong set-up does
         for variant in (1, 2, 3, 4):
             try:
                 check_once(reformulate(case, variant), ctx, False)
